@@ -43,6 +43,10 @@ def skeletons(tier):
     for m, b, anno in bw:
         out.append({"id": f"main-{m}-bwd-{b}-anno{int(anno)}", "main": m, "bwd": b,
                     "params": {"bwdanno": anno, "step": True}})
+    out.append({"id": "main-o-bwd-a-anno0-second-rank", "main": "o", "bwd": "a", "params": {"bwdanno": False, "step": True, "lead": True}})
+    if tier == "thorough":
+        out.append({"id": "main-o-bwd-a-anno1-second-rank", "main": "o", "bwd": "a", "params": {"bwdanno": True, "step": True, "lead": True}})
+        out.append({"id": "main-o-bwd-A-anno0-second-rank", "main": "o", "bwd": "A", "params": {"bwdanno": False, "step": True, "lead": True}})
     out.append({"id": "main-ol-rebuild", "main": "ol", "bwd": "", "params": {"bwdanno": False, "step": False, "rebuild": 1}})
     # event 0 starts at the (concrete) origin, so the loader's shift is 0 and the 130 far-away operators stay concrete
     out.append({"id": "main-ol-pad130-rebuild", "main": "ol", "bwd": "", "vars": {"m0_ts": ["int", 0, 0]},
@@ -128,6 +132,15 @@ def run(ctx):
     for d in D:
         if d["launch"] is not None:
             pass      # kernel.ts >= launch.ts is not assumed: the quantifier does not ask for causal consistency
+    R = 0
+    if ctx.params.get("lead"):
+        # "one or several ranks": the rank under test is the second rank of one CallGraph; the first rank (concrete
+        # times) has a main thread with a profiler step and an autograd thread of its own
+        lead = [TG.op("aten::mm", 5, 10, tid=MAIN_TID), TG.op("ProfilerStep#7", 0, 200, tid=MAIN_TID, cat="user_annotation"),
+                TG.op("aten::add", 20, 10, tid=MAIN_TID),
+                TG.op("autograd::engine::evaluate_function: AddBackward0", 40, 10, tid=BWD_TID)]
+        events = {0: lead, 1: events[0]}
+        R = 1
     ta = ctx.open(events)
     m = ta.t.min_ts
     if ctx.mode == "sym":
@@ -137,8 +150,8 @@ def run(ctx):
     for _ in range(1 + int(ctx.params.get("rebuild", 0))):
         # HTA builds a CallGraph per analysis call on the same Trace object: the stack columns written by an earlier
         # build must not disturb a later one
-        CG(ta.t, ranks=[0])
-    df = ta.t.get_trace(0)
+        CG(ta.t, ranks=[0, 1] if R else [0])
+    df = ta.t.get_trace(R)
     idx = [int(x) for x in ctx.cells(df["index"])]
     col = {c: dict(zip(idx, ctx.cells(df[c]))) for c in ["parent", "depth", "height", "num_kernels", "kernel_dur_sum",
                                                         "kernel_span", "first_kernel_start", "last_kernel_end"]}
